@@ -219,21 +219,31 @@ def test_strptime(count):
 
 def test_float_repr(count):
     rnd = random.Random(5)
+    skipped = 0
     pool = ["0.0", ".0", "0.", "2.", ".5", "+1.5", "-0.0", "-.25", "007.500", "1.50", "10.01", "0.001", "0.0001",
             "123456.789", " 3.25 ", "1000000.0", "00.10", "-12.", "0.10"]
     pool += ["".join(rnd.choice("0123456789") for _ in range(rnd.randint(1, 4))) + "." +
              "".join(rnd.choice("0123456789") for _ in range(rnd.randint(0, 4))) for _ in range(300)]
+    pool += ["1e5", "1E5", "2e0", "0e3", "5e-1", "1.5e3", "1.5E+3", "-2.50e-2", ".5e1", "5.e2", "12e-3", "1e-4", "1e-5",
+             "123.456e2", "123.456e-2", "9e15", "1e16", "00.10e01", "7e-0", "1.e+15", "0.0e5",
+             "inf", "-inf", "+INF", "Infinity", "-iNfInItY", "nan", "NaN", "-nan", "+nan"]
+    pool += ["".join(rnd.choice("0123456789") for _ in range(rnd.randint(1, 3))) + rnd.choice(["", ".", ".5", ".25", ".0"]) +
+             rnd.choice("eE") + rnd.choice(["", "+", "-"]) + str(rnd.randint(0, 16)) for _ in range(300)]
     for s in pool:
         def sym():
             return SymStr.mk(cmodels.float_repr(pin(s)))
         try:
             got = ("ok", unpin(sym()))
         except Unsupported:
+            Ctx.cur.unsupported = None        # declared outside the model: nothing to compare
+            skipped += 1
             continue
         real = ("ok", repr(float(s)))
         if got != real:
             raise Mismatch("float_repr(%r): model %r, CPython %r" % (s, got, real))
         count[0] += 1
+    if skipped * 2 > len(pool):
+        raise Mismatch("float_repr: the model declined %d of %d texts" % (skipped, len(pool)))
 
 
 def test_format(count):
